@@ -8,6 +8,7 @@ R = lambda n: {"kind": "reference", "name": n}
 NUL = B("null")
 WORDS = ["range", "token", "label", "content", "version", "language", "pattern", "scheme", "folder", "symbol", "value", "detail", "selection", "document", "workspace", "provider", "support", "options", "offset", "severity", "message", "source", "target", "origin", "context", "trigger", "filter", "format", "encoding", "position", "identifier", "resolve", "dynamic", "registration", "capability", "snippet", "preview", "annotation", "metadata", "revision"]
 KW = ["class", "from", "import", "lambda", "global", "pass", "with", "yield", "async", "in", "is", "not", "def", "del", "try"]
+RUSTKW = ["final", "override", "abstract", "box", "do", "macro", "priv", "typeof", "unsized", "virtual", "become", "static", "struct", "move", "ref", "loop", "dyn", "where", "crate", "super", "mod", "pub", "fn", "impl", "trait", "mut", "extern", "unsafe", "const", "enum", "use", "match", "type"]
 MIXINS = ["WorkDoneProgressParams", "PartialResultParams", "StaticRegistrationOptions", "TextDocumentPositionParams"]
 OPS = ("E1", "E2", "E3", "E4", "E5", "E6", "E7", "E8", "E9", "E10", "E11", "E12", "E13")
 
@@ -296,6 +297,28 @@ class Evo:
             e["values"].append(v)
             self.log.append("E4 value %s.%s" % (e["name"], vn))
 
+    def E5_names(self):
+        """message names with a particular SHAPE: the class-suffix word inside a typeName, and methods
+        (without typeName) that already end in the suffix the plugins append."""
+        r = self.r
+        self.n += 1
+        k = self.n
+        st = lambda: R(r.choice(self.new_structs or self.structs()))
+        reqs = [
+            {"method": "verif/pullRequestList%d" % k, "typeName": "PullRequestList%dRequest" % k, "messageDirection": "clientToServer", "params": st(), "result": NUL},
+            {"method": "verif/requestReview%d" % k, "messageDirection": "clientToServer", "params": st(), "result": {"kind": "or", "items": [st(), NUL]}},
+            {"method": "verif/cancel%dRequest" % k, "messageDirection": "both", "params": st(), "result": NUL},
+        ]
+        nots = [
+            {"method": "verif/push%dNotification" % k, "messageDirection": "serverToClient", "params": st()},
+            {"method": "verif/notificationCenter%d" % k, "typeName": "NotificationCenter%dNotification" % k, "messageDirection": "clientToServer", "params": st()},
+        ]
+        self.d["requests"] += reqs
+        self.d["notifications"] += nots
+        for q in reqs + nots:
+            self.new_methods.append(q["method"])
+        self.log.append("E5 names: Request/Notification inside typeNames, methods ending in the class suffix (no typeName)")
+
     def E5(self, with_typename=None, kind=None, dollar=None, params_last_new=False, enum_result=False, unicode_method=None):
         r = self.r
         prefix = "$/verif" if (dollar if dollar is not None else r.random() < 0.2) else "verif/"
@@ -430,6 +453,22 @@ class Evo:
         self.new_structs.append(nm)
         self.touched.add(nm)
         self.log.append("E10 %s keyword-named special properties %s" % (nm, kws))
+        # ... and a structure whose property names are keywords of the OTHER target languages (strict and
+        # reserved Rust words; not Python keywords)
+        nm2 = self.name(True)
+        rk = self.r.sample(RUSTKW, 6)
+        props2 = [
+            {"name": rk[0], "type": B("boolean"), "optional": True},
+            {"name": rk[1], "type": B("string")},
+            {"name": rk[2], "type": {"kind": "or", "items": [B("uinteger"), NUL]}},
+            {"name": rk[3], "type": {"kind": "array", "element": B("string")}, "optional": True},
+            {"name": rk[4], "type": R(self.r.choice(self.structs())), "optional": True},
+            {"name": rk[5], "type": {"kind": "or", "items": [B("string"), NUL]}, "optional": True},
+        ]
+        self.d["structures"].append({"name": nm2, "properties": props2})
+        self.new_structs.append(nm2)
+        self.touched.add(nm2)
+        self.log.append("E10 %s Rust-keyword-named properties %s" % (nm2, rk))
 
     def E11(self):
         """anonymous literal types in the three positions the LSP metamodel uses them (property type,
@@ -518,6 +557,26 @@ class Evo:
         self.new_structs.append(nm)
         self.touched.add(nm)
         self.log.append("E13 %s: every type kind x {required, optional}" % nm)
+
+    def E14(self, depth=7):
+        """an inheritance chain deeper than anything in the committed model (its deepest is 3): every
+        level adds one property; the leaf must carry all of them, and it is used by a request."""
+        parent = None
+        names = []
+        for lvl in range(depth):
+            nm = self.name(True)
+            st_ = {"name": nm, "properties": [{"name": "level%dValue" % lvl, "type": B("string") if lvl % 2 else B("uinteger"), **({"optional": True} if lvl % 3 == 2 else {})}]}
+            if parent:
+                st_["extends" if lvl % 2 else "mixins"] = [R(parent)]
+            self.d["structures"].append(st_)
+            self.new_structs.append(nm)
+            self.touched.add(nm)
+            names.append(nm)
+            parent = nm
+        self.n += 1
+        self.d["requests"].append({"method": "verif/deepChain%d" % self.n, "typeName": "DeepChain%dRequest" % self.n, "messageDirection": "clientToServer", "params": R(parent), "result": {"kind": "or", "items": [R(parent), NUL]}})
+        self.new_methods.append("verif/deepChain%d" % self.n)
+        self.log.append("E14 inheritance chain of depth %d: %s" % (depth, " <- ".join(names)))
 
     def E6(self, both=False):
         sec = self.r.choice(["structures", "enumerations", "typeAliases", "requests", "notifications"])
